@@ -134,6 +134,7 @@ package cluster
 // other cases (Started/Stopped/ping: discovery, pinger, shutdown).
 //@ func (*SelfManaged).Receive(c)
 //@   props C20
+//@   prune
 //@   requires provInv(s) && c != nil
 //@   requires istype(c.message, *Handshake) || istype(c.message, *Members) || istype(c.message, memberLeave)
 //@   requires istype(c.message, *Handshake) ==> c.message.(*Handshake) != nil && c.message.(*Handshake).Member != nil
@@ -341,3 +342,20 @@ package cluster
 //@     invariant[C18.members.l2.not-yet-removed] forall(k, rangeindex < k && k < len(left) ==> has(a.members.members, left[k].ID))
 //@     invariant[C18.members.l2.only-left-removed] forallS("Str", id, old(has(a.members.members, id)) && !has(a.members.members, id) ==> 0 <= lw[id] && lw[id] <= rangeindex && lw[id] < len(left) && left[lw[id]].ID == id)
 //@     modifies mapof(a.members.members), mapof(a.kinds), mapof(a.activated)
+
+// The agent actor. Only the membership cases are verified here (the
+// precondition restricts the message to a *Members snapshot or a getMembers
+// query); the activation cases are the subject of C19.
+//@ func (*Agent).Receive(c)
+//@   props C18
+//@   prune
+//@   requires agentInv(a) && c != nil && engInv(c.engine)
+//@   requires istype(c.message, *Members) || istype(c.message, getMembers)
+//@   requires istype(c.message, *Members) ==> c.message.(*Members) != nil && allNonNil(c.message.(*Members).Members)
+//@   modifies mapof(a.members.members), mapof(a.kinds), mapof(a.activated), log, loglen
+//@   ghost at call handleMembers#1 before: assert[C18.receive.snapshot-handled] arg0 == a && arg1 == c.message.(*Members).Members
+//@   ghost at call Respond#3 before: assert[C18.receive.members-query-answered-with-the-view] arg0 == c && complete(arg1.([]*Member), a.members) &&
+//@        forall(k, 0 <= k && k < len(arg1.([]*Member)) ==> has(a.members.members, arg1.([]*Member)[k].ID) && a.members.members[arg1.([]*Member)[k].ID] == arg1.([]*Member)[k]) && len(arg1.([]*Member)) == len(a.members.members)
+//@   ensures[C18.receive.view-equals-snapshot] istype(old(c.message), *Members) ==> forallS("Str", id, has(a.members.members, id) ==> exists(j, 0 <= j && j < len(old(c.message).(*Members).Members) && old(c.message).(*Members).Members[j].ID == id)) &&
+//@        forall(j, 0 <= j && j < len(old(c.message).(*Members).Members) ==> has(a.members.members, old(c.message).(*Members).Members[j].ID))
+//@   ensures[C18.receive.query-changes-nothing] istype(old(c.message), getMembers) ==> forallS("Str", id, has(a.members.members, id) == old(has(a.members.members, id)))
